@@ -17,12 +17,16 @@ run(ctx):
        NORM      o3.Norm squared / not squared
        EXTRACT   Extract (valid, repeated blocks, whole copy, broadcasting and mismatching irreps_outs, bad counts,
                  out-of-range index, wrong input length), ExtractIr, IDENT Identity
-  3. the property's own oracle on the real modules alone: for random rotations and rotation * inversion,
-     f(x D_in^T) = f(x) D_out^T with the irreps the module reports (D from Irreps.D_from_matrix), tolerance 1e-9,
-     at zero input, at tiny norms around epsilon and at random input.
+  3. the property's own oracles on the real modules alone:
+     equivariance  for random rotations and rotation * inversion, f(x D_in^T) = f(x) D_out^T with the irreps the
+                   module reports (D from Irreps.D_from_matrix), tolerance 1e-9, at zero input, at tiny norms around
+                   epsilon and at random input (a forward that raises or returns nan there is a failure);
+     values        plain-python readings of the statement (spec_act, spec_gate, spec_nact, spec_norm, spec_extract:
+                   activated scalars ++ gated copy x own activated gate, phi(max(|x|,eps)+b)/max(|x|,eps) x, |x_u|,
+                   copies of the selected slices), tolerance 1e-9, on every successful forward of step 2.
   4. known constructor defects are replayed and reported with ctx.violation(key, ..., found=True).
-A model/code disagreement alone is reported as `corr:<stream>` (no failing input) unless the equivariance oracle
-fails on the real module for that configuration.
+A model/code disagreement alone is reported as `corr:<stream>` (no failing input) unless one of the two oracles
+fails on the real module for that stream (then `<stream>/equivariance` or `<stream>/value` with the input).
 """
 from __future__ import annotations
 
@@ -216,6 +220,97 @@ def pick_act(rng, l, p, want_error=0.1):
     return rng.choice(EVEN + ODD + NEITHER)
 
 
+
+# ----------------------------------------------------------------------------- the property's own value oracles
+# (plain python readings of the property statement, independent of the Lean model; used to turn a model/code
+#  disagreement into a concrete failing input, and evaluated on every successful forward)
+def py_simplify(v):
+    out = []
+    for m, l, p in v:
+        if out and (out[-1][1], out[-1][2]) == (l, p):
+            out[-1] = (out[-1][0] + m, l, p)
+        elif m > 0:
+            out.append((m, l, p))
+    return out
+
+
+def apply_fn(name, ent, vals):
+    import torch
+
+    if not vals:
+        return []
+    t = _funcs()[name][0](torch.tensor(vals, dtype=torch.float64))
+    if not ent[1]:
+        t = t * ent[0]
+    return t.tolist()
+
+
+def spec_act(v, names, ents, x):
+    out, i = [], 0
+    for (m, l, _p), nm, e in zip(v, names, ents):
+        n = m * (2 * l + 1)
+        blk = x[i:i + n]
+        out += apply_fn(nm, e, blk) if nm is not None else blk
+        i += n
+    return out
+
+
+def spec_norm(v, squared, x):
+    out, i = [], 0
+    for l, _p in copies_of(v):
+        d = 2 * l + 1
+        q = math.fsum(t * t for t in x[i:i + d])
+        out.append(q if squared else math.sqrt(q))
+        i += d
+    return out
+
+
+def spec_nact(v, fn, normalize, eps, b, x):
+    out, i = [], 0
+    for u, (l, _p) in enumerate(copies_of(v)):
+        d = 2 * l + 1
+        c = x[i:i + d]
+        q = math.fsum(t * t for t in c)
+        n = math.sqrt(max(q, eps * eps)) if eps is not None else math.sqrt(q)
+        s = apply_fn(fn, (1.0, True), [n + (b[u] if b is not None else 0.0)])[0]
+        if normalize:
+            s = s / n if n != 0 else float("nan")
+        out += [t * s for t in c]
+        i += d
+    return out
+
+
+def spec_gate(sc, nS, eS, gates, nG, eG, gated, x):
+    """activated scalars ++ (each gated copy x its own activated gate); the input is laid out by the stable sort of
+    simplify(scalars) + simplify(gates) + simplify(gated) by (l, p) with odd before even"""
+    parts = [py_simplify(sc), py_simplify(gates), py_simplify(gated)]
+    tagged = [(k, j, b) for k, part in enumerate(parts) for j, b in enumerate(part)]
+    order = sorted(range(len(tagged)), key=lambda t: (tagged[t][2][1], tagged[t][2][2], t))
+    got = {}
+    i = 0
+    for t in order:
+        k, j, (m, l, _p) = tagged[t]
+        n = m * (2 * l + 1)
+        got[(k, j)] = x[i:i + n]
+        i += n
+    flat = [[t for j in range(len(part)) for t in got[(k, j)]] for k, part in enumerate(parts)]
+    S = spec_act(sc, nS, eS, flat[0])
+    G = spec_act(gates, nG, eG, flat[1])
+    out, i = list(S), 0
+    for u, (l, _p) in enumerate(copies_of(gated)):
+        d = 2 * l + 1
+        out += [t * G[u] for t in flat[2][i:i + d]]
+        i += d
+    return out
+
+
+def spec_extract(v, ins, x):
+    starts = [0]
+    for m, l, _p in v:
+        starts.append(starts[-1] + m * (2 * l + 1))
+    return [[t for i in tup for t in x[starts[i]:starts[i + 1]]] for tup in ins]
+
+
 # ----------------------------------------------------------------------------- the run
 class Stream:
     def __init__(self, ctx):
@@ -332,7 +427,13 @@ def run(ctx):
         for x, mo, i in zip(xs, modes, range(len(xs))):
             rf = ("ok", ys[i]) if ys is not None else ("error", "runtime")
             S.add("ACT", f"ACT|{enc_irreps(v)}|{act_field(names, ents)}|{enc_floats(x)}",
-                  ("Activation", v, names, mo, which), rc, rf)
+                  ("Activation", v, names, mo, which), rc, rf,
+                  {"spec": (lambda v=v, names=names, ents=ents, x=x: spec_act(v, names, ents, x))})
+        if not v:  # no path: `zeros_like(features)` whatever the length
+            x = [1.5, -2.0]
+            r_ = fwd_real(m, [x])
+            rf = ("ok", r_[1].tolist()[0]) if r_[0] == "ok" else r_
+            S.add("ACT", f"ACT|_|_|{enc_floats(x)}", ("Activation-empty-irreps", x), rc, rf)
         # wrong feature length: too short raises (narrow), too long is silently truncated
         if d > 0 and it % 4 == 0:
             for x in (rand_point(rng, v, "rand")[:-1], rand_point(rng, v, "rand") + [1.25]):
@@ -427,7 +528,8 @@ def run(ctx):
         r_ = fwd_real(g, xs)
         for i, x in enumerate(xs):
             rf = ("ok", r_[1].tolist()[i]) if r_[0] == "ok" else r_
-            S.add("GATE", head + "|" + enc_floats(x), desc, rc, rf)
+            S.add("GATE", head + "|" + enc_floats(x), desc, rc, rf,
+                  {"spec": (lambda a=(sc, nS, eS, gates, nG, eG, gated), x=x: spec_gate(*a, x))})
         if it % 6 == 0 and dim_of(vin) > 0:
             x = rand_point(rng, vin, "rand")[:-1]
             r_ = fwd_real(g, [x])
@@ -470,7 +572,8 @@ def run(ctx):
             x = rand_point(rng, v, mo, eps=float(m.epsilon))
             r_ = fwd_real(m, [x])
             rf = ("ok", r_[1].tolist()[0]) if r_[0] == "ok" else r_
-            S.add("NACT", head + "|" + enc_floats(x), desc + (mo,), rc, rf)
+            S.add("NACT", head + "|" + enc_floats(x), desc + (mo,), rc, rf,
+                  {"spec": (lambda a=(v, fn, normalize, float(m.epsilon), b), x=x: spec_nact(*a, x))})
         if it % 5 == 0:
             x = rand_point(rng, v, "rand") + [0.5]
             r_ = fwd_real(m, [x])
@@ -489,7 +592,8 @@ def run(ctx):
             r_ = fwd_real(m, [x])
             rf = ("ok", r_[1].tolist()[0]) if r_[0] == "ok" else r_
             S.add("NACT", head + "|" + enc_floats(x), ("NormActivation-surgery-normalize-False", v, fn, mo),
-                  ("error", "noneGtInt"), rf, {"surgery": True})
+                  ("error", "noneGtInt"), rf,
+                  {"surgery": True, "spec": (lambda a=(v, fn, False, None, None), x=x: spec_nact(*a, x))})
         eq_jobs.append(("NACT", ("NormActivation-surgery", v, fn), m, v, [v], 1e-8))
 
     # ------------------------------------------------------------------ Norm
@@ -506,7 +610,8 @@ def run(ctx):
             x = rand_point(rng, v, mo)
             r_ = fwd_real(m, [x])
             rf = ("ok", r_[1].tolist()[0]) if r_[0] == "ok" else r_
-            S.add("NORM", head + "|" + enc_floats(x), ("Norm", v, sq, mo), rc, rf)
+            S.add("NORM", head + "|" + enc_floats(x), ("Norm", v, sq, mo), rc, rf,
+                  {"spec": (lambda v=v, sq=sq, x=x: spec_norm(v, sq, x))})
         if it % 5 == 0:
             x = rand_point(rng, v, "rand") + [0.5]
             r_ = fwd_real(m, [x])
@@ -572,7 +677,10 @@ def run(ctx):
             except Exception:  # noqa: BLE001
                 rf = ("error", "runtime")
             ctx.count(f"EXTRACT:fwd:{kind}:{rf[0]}")
-            S.add("EXTRACT", head + "|" + enc_floats(x), desc, rc, rf)
+            meta = {}
+            if kind == "valid" and len(x) == dim_of(v):
+                meta = {"spec": (lambda v=v, ins=ins, x=x: spec_extract(v, ins, x))}
+            S.add("EXTRACT", head + "|" + enc_floats(x), desc, rc, rf, meta)
 
     for it in range(20 if quick else 200):
         v = rand_irreps(rng, maxlen=5)
@@ -628,6 +736,8 @@ def run(ctx):
 
     # ------------------------------------------------------------------ comparison
     mism = {}
+    val_fail = {}
+    n_val = 0
 
     def parse_ctor(stream, part):
         part = part.strip()
@@ -678,6 +788,17 @@ def run(ctx):
                     ok_f = len(rf[1]) == len(mf[1]) and all(vec_close(a, b) for a, b in zip(rf[1], mf[1]))
                 else:
                     ok_f = vec_close(rf[1], mf[1])
+        if rf is not None and rf[0] == "ok" and "spec" in meta:
+            want = meta["spec"]()
+            if stream == "EXTRACT":
+                ok_v = len(rf[1]) == len(want) and all(vec_close(a, b, 1e-9) for a, b in zip(rf[1], want))
+            else:
+                ok_v = vec_close(rf[1], want, 1e-9)
+            n_val += 1
+            if not ok_v:
+                val_fail.setdefault(stream, []).append({"desc": repr(desc), "line": line[:3000],
+                                                        "expected_by_property": repr(want)[:2000],
+                                                        "got": repr(rf[1])[:2000]})
         nontrivial = rf is not None and rf[0] == "ok" and bool(rf[1])
         ctx.case([str(desc)[:300]], nontrivial=nontrivial or rc[0] == "error", sample_every=97)
         ctx.count(f"{stream}:lines")
@@ -733,9 +854,13 @@ def run(ctx):
     ctx.obligation("oracle:equivariance-real-modules", not eq_fail, json.dumps(eq_fail)[:3000])
     for stream, lst in eq_fail.items():
         ctx.violation(f"{stream}/equivariance", {"failures": lst[:5], "tolerance": EQ_TOL}, found=True)
+    ctx.notes["value_oracle_evaluations"] = n_val
+    ctx.obligation("oracle:closed-form-values-real-modules", not val_fail, json.dumps(val_fail)[:3000])
+    for stream, lst in val_fail.items():
+        ctx.violation(f"{stream}/value", {"failures": lst[:5], "tolerance": 1e-9}, found=True)
     for stream, lst in mism.items():
         ctx.obligation(f"corr:{stream}", False, json.dumps(lst[:3])[:3000])
-        if stream not in eq_fail:
+        if stream not in eq_fail and stream not in val_fail:
             ctx.violation(f"corr:{stream}", {"disagreements": lst[:10], "count": len(lst)}, found=False)
     for stream in ["ACT", "GATE", "NACT", "NORM", "EXTRACT", "EXTRACTIR", "IDENT"]:
         if stream not in mism:
